@@ -411,6 +411,87 @@ def decision_list(t):
     return out
 
 
+def _bool_atoms(c, out):
+    """atomic conditions of a boolean term (through and / or / not / t / okcond and boolean-valued alts)"""
+    if c in (TRUE, FALSE):
+        return
+    k = c[0]
+    if k in ('and', 'or'):
+        for x in c[1]:
+            _bool_atoms(x, out)
+    elif k in ('not', 'okcond'):
+        _bool_atoms(c[1], out)
+    elif k == 'alt':
+        for a, b in c[1]:
+            _bool_atoms(a, out)
+            _bool_atoms(b, out)
+    else:
+        a = norm_atom(c)
+        a = a[1] if a[0] == 'not' else a
+        if a not in out:
+            out.append(a)
+
+
+def _truth(c, asg):
+    if c == TRUE:
+        return True
+    if c == FALSE:
+        return False
+    k = c[0]
+    if k == 'and':
+        return all(_truth(x, asg) for x in c[1])
+    if k == 'or':
+        return any(_truth(x, asg) for x in c[1])
+    if k == 'not':
+        return not _truth(c[1], asg)
+    if k == 'okcond':
+        return _truth(c[1], asg)
+    if k == 'alt':
+        for a, b in c[1]:
+            if _truth(a, asg):
+                return _truth(b, asg)
+        return False
+    a = norm_atom(c)
+    if a[0] == 'not':
+        return not asg[repr(a[1])]
+    return asg[repr(a)]
+
+
+def _select(t, asg):
+    while t[0] == 'alt':
+        for c, v in t[1]:
+            if _truth(c, asg):
+                t = v
+                break
+        else:
+            return ('no-arm',)
+    return t
+
+
+def same_decision(a, b, limit=12):
+    """two (nested) choices select the same value under every assignment of their atomic conditions (conditions may themselves be boolean
+    choices: `match opt { Some(x) => .., None => .. }` over an Option that was itself computed by a match); falls back to comparing the
+    canonical decision lists when there are more than `limit` atoms"""
+    atoms = []
+    for t in (a, b):
+        st = [t]
+        while st:
+            x = st.pop()
+            if x[0] == 'alt':
+                for c, v in x[1]:
+                    _bool_atoms(c, atoms)
+                    st.append(v)
+    if len(atoms) > limit:
+        return decision_list(a) == decision_list(b)
+    import itertools
+    keys = [repr(x) for x in atoms]
+    for bits in itertools.product((False, True), repeat=len(keys)):
+        asg = dict(zip(keys, bits))
+        if _select(a, asg) != _select(b, asg):
+            return False
+    return True
+
+
 def exhaustive_alt(x):
     """the conditions of the arms cover every case (propositionally, over the normalised atoms)"""
     arms = [[norm_atom(a) for a in conj_atoms(c)] for c, _ in x[1]]
@@ -788,7 +869,7 @@ class Interp:
         k = pat['k']
         if scrut[0] == 'alt' and ((k == 'PTupleStruct' and pat['path']['segs'][-1] in ('Some', 'None')) or (k in ('PIdent', 'PPath') and
                                                                                                         (pat.get('name') == 'None' or pat.get('path', {}).get('segs', [''])[-1] == 'None'))):
-            oc, ov = self.as_opt(scrut)
+            oc, ov = self.as_opt(scrut, assume_option=True)
             if oc is not None:
                 scrut = ('opt', oc, ov)
         if scrut[0] == 'opt' and ((k == 'PIdent' and pat['name'] == 'None' and pat['sub'] is None) or (k == 'PPath' and pat['path']['segs'][-1] == 'None')):
@@ -1751,8 +1832,9 @@ class Interp:
             return recv[0] not in ('acc', 'tuple', 'reorder', 'new')
         return False
 
-    def as_opt(self, v):
-        """(cond, value) view of an Option-valued term, or (None, None)"""
+    def as_opt(self, v, assume_option=False):
+        """(cond, value) view of an Option-valued term, or (None, None); with assume_option (the term is matched against Some / None, so it IS an
+        Option) arms of unknown structure are viewed generically as (is_some(x), unwrap(x))"""
         if v[0] == 'opt':
             return v[1], v[2]
         if v[0] == 'alt':
@@ -1760,7 +1842,9 @@ class Interp:
             for c, x in v[1]:
                 if x[0] == 'diverge':
                     continue
-                oc, ov = self.as_opt(x)
+                oc, ov = self.as_opt(x, assume_option)
+                if oc is None and assume_option and x[0] not in ('tmpl', 'tuple', 'struct', 'lit', 'star', 'acc'):
+                    oc, ov = ('t', ('is_some', x)), ('unwrap', x)
                 if oc is None:
                     return None, None
                 cs.append((c, oc))
@@ -1874,6 +1958,13 @@ class OGP:
         self.effects = self.it.effects
         self.templates = self.it.templates
         self.unknowns = self.it.unknowns
+        # canonical view for the rules: a quote! template interpolated unconditionally into another one (`let piece = quote!{..}; quote!{.. #piece ..}`,
+        # or a helper function returning the piece) is spliced in place, so that splitting / merging quote! invocations does not change what the
+        # rules see.  The raw summaries (one template per quote! site) stay available for the compile witness, which maps diagnostics to sites.
+        self.raw = self.summaries
+        memo = {}
+        self.summaries = {q: flat_term(v, memo) for q, v in self.raw.items()}
+        self._flat_memo = memo
 
     def fn(self, short):
         """qualified names ending with ::short"""
@@ -1986,6 +2077,84 @@ def find_templates(t, pred):
 
 def tmpl_text(t):
     return items_text(t[2])
+
+
+def flat_term(t, memo):
+    """`t` with every template flattened (see `flatten`), sharing preserved (one flattened object per original object)"""
+    if isinstance(t, list):
+        return [flat_term(x, memo) for x in t]
+    if isinstance(t, dict):
+        return {k: flat_term(v, memo) for k, v in t.items()}
+    if not isinstance(t, tuple):
+        return t
+    if id(t) in memo:
+        return memo[id(t)][1]
+    if t and t[0] == 'closure':
+        r = t
+    elif t and t[0] == 'tmpl':
+        used = set()
+
+        def go(items):
+            out = []
+            for it in items:
+                if it[0] == 'hole':
+                    v = flat_term(it[2], memo)
+                    if v[0] == 'tmpl':
+                        for x in v[2]:
+                            out.append(rename(x))
+                    else:
+                        out.append(rename(('hole', it[1], v)))
+                elif it[0] == 'rep':
+                    out.append(('rep', go(it[1]), it[2]))
+                else:
+                    out.append(it)
+            return out
+
+        def rename(x):
+            if x[0] == 'hole':
+                name, k = x[1], 2
+                while name in used:
+                    name = f'{x[1]}_{k}'
+                    k += 1
+                used.add(name)
+                return ('hole', name, x[2])
+            if x[0] == 'rep':
+                return ('rep', [rename(y) for y in x[1]], x[2])
+            return x
+        r = ('tmpl', t[1], go(t[2]), t[3])
+    else:
+        r = tuple(flat_term(x, memo) for x in t)
+    memo[id(t)] = (t, r)      # keep the original alive so that its id stays unique
+    return r
+
+
+def flatten(t):
+    """the same template with every unconditional nested template (a hole whose value is itself a quote! template: `let inner = quote!{..};
+    quote!{ .. #inner .. }`) spliced in place, recursively - splitting a quote! into interpolated pieces leaves the flattened form unchanged.
+    Colliding hole names of spliced pieces get a numeric suffix."""
+    if t[0] != 'tmpl':
+        return t
+    used = set()
+
+    def go(items):
+        out = []
+        for it in items:
+            if it[0] == 'hole' and it[2][0] == 'tmpl':
+                out.extend(go(it[2][2]))
+            elif it[0] == 'hole':
+                name = it[1]
+                k = 2
+                while name in used:
+                    name = f'{it[1]}_{k}'
+                    k += 1
+                used.add(name)
+                out.append(('hole', name, it[2]))
+            elif it[0] == 'rep':
+                out.append(('rep', go(it[1]), it[2]))
+            else:
+                out.append(it)
+        return out
+    return ('tmpl', t[1], go(t[2]), t[3])
 
 
 def holes(t):
